@@ -63,6 +63,25 @@ func ruleOptFwdFrom(w *World, r *Report, callerPkg, pkg *ssa.Package, tag, elem 
 					}
 					idx, callee := optionArgIndex(c, pkg, optT)
 					if idx < 0 {
+						// a helper of the package that is given no options at all but compares / diffs /
+						// hashes on the caller's behalf: whatever it calls that takes options gets none
+						// (seeded change C05-c: a shared "replace unless equal" helper calling Equals bare)
+						if g := staticCallee(c); g != nil && g.Blocks != nil && fnPkg(g) == pkg.Pkg && callerPkg == pkg && g.Parent() == nil && diffSide(fn) {
+							if _, isClosure := c.Common().Value.(*ssa.MakeClosure); !isClosure {
+								for _, site := range optionlessCalls(g, pkg, optT, 0, map[*ssa.Function]bool{fn: true}) {
+									k := fmt.Sprintf("%s→%s→%s", fnName(fn), g.Name(), site.callee)
+									ord[k]++
+									if ord[k] > 1 {
+										continue
+									}
+									if why, ok := exempt[k]; ok {
+										r.Ok(rule, k, w.Pos(site.pos), "exempt by name: "+why)
+										continue
+									}
+									r.Bad(rule, k, w.Pos(site.pos), fmt.Sprintf("%s is called by %s, which was given options (%s), but takes none and calls %s: the callee decides without the options the caller was asked about", g.Name(), fnName(fn), valueName(own), site.callee))
+								}
+							}
+						}
 						continue
 					}
 					ord[callee]++
@@ -265,4 +284,52 @@ func nextShaped(fn *ssa.Function) bool {
 	}
 	rn := typeName(sig.Recv().Type())
 	return rn == "Path" || rn == "path"
+}
+
+
+type optSite struct {
+	callee string
+	pos    token.Pos
+}
+
+// optionlessCalls: the calls to option-taking functions of pkg made by g — a function that has no
+// option list of its own — and by the option-less package functions it calls in turn.
+func optionlessCalls(g *ssa.Function, pkg *ssa.Package, optT types.Type, depth int, seen map[*ssa.Function]bool) []optSite {
+	if depth > 2 || seen[g] {
+		return nil
+	}
+	seen[g] = true
+	for _, p := range g.Params {
+		if types.Identical(p.Type(), optT) {
+			return nil
+		}
+	}
+	if ownOptions(g, optT) != nil {
+		return nil
+	}
+	var out []optSite
+	withClosures(g, func(f *ssa.Function) {
+		allInstrs(f, func(in ssa.Instruction) {
+			c, ok := in.(ssa.CallInstruction)
+			if !ok {
+				return
+			}
+			if idx, callee := optionArgIndex(c, pkg, optT); idx >= 0 {
+				// a comparison with a fixed sentinel (n.Equals(voidNode{})) has nothing options could change
+				for _, a := range append([]ssa.Value{c.Common().Value}, c.Common().Args...) {
+					if mi, ok := a.(*ssa.MakeInterface); ok {
+						if _, isConst := mi.X.(*ssa.Const); isConst {
+							return
+						}
+					}
+				}
+				out = append(out, optSite{callee, c.Pos()})
+				return
+			}
+			if h := staticCallee(c); h != nil && h.Blocks != nil && fnPkg(h) == pkg.Pkg && h.Parent() == nil {
+				out = append(out, optionlessCalls(h, pkg, optT, depth+1, seen)...)
+			}
+		})
+	})
+	return out
 }
